@@ -15,7 +15,7 @@ from ..flow import Flow, emptiness_test_kind
 from ..alg import Sym, Unsupported, _binop
 
 GEO = "typhon/geographical.py"
-EXPECT = {"C06.units": 8, "C06.scale": 4, "C06.deshuffle": 2, "C06.pairs": 3, "C06.empty": 1, "C06.metric": 2, "C06.complete": 3, "C06.pure": 3}
+EXPECT = {"C06.units": 8, "C06.scale": 4, "C06.deshuffle": 2, "C06.pairs": 4, "C06.empty": 1, "C06.metric": 2, "C06.complete": 3, "C06.pure": 3}
 
 SI_KM = {  # unit -> (kilometres per unit, accepted spellings)
     "cm": (1e-5, {"cm", "centimeter", "centimeters", "centimetre", "centimetres"}),
@@ -388,9 +388,22 @@ def pair_builders(f, flow):
         raise AnalysisError("query(): pair element %s is neither [build, query] nor [query, build]" % norm(elt))
 
     def transposed(node):
+        """np.array(<rows>)[.reshape(-1, 2)].T ; records in `shape2` whether the N x 2 shape is forced (an empty list of rows is otherwise a
+        float array of shape (0,), and `.T` of that is not 2 x 0)"""
         p_ = parent(node)
-        pp_ = parent(p_) if p_ is not None else None
-        return isinstance(p_, ast.Call) and (dotted(p_.func) or "").split(".")[-1] in ("array", "asarray") and isinstance(pp_, ast.Attribute) and pp_.attr == "T"
+        if not (isinstance(p_, ast.Call) and (dotted(p_.func) or "").split(".")[-1] in ("array", "asarray")):
+            return False
+        intd = any(k_.arg == "dtype" and str(norm(k_.value)) in ("int", "np.int64", "np.intp", "'int'", "np.int_") for k_ in p_.keywords)
+        pp_ = parent(p_)
+        forced = False
+        if isinstance(pp_, ast.Attribute) and pp_.attr == "reshape" and isinstance(parent(pp_), ast.Call):
+            rc = parent(pp_)
+            shp = rc.args[0].elts if len(rc.args) == 1 and isinstance(rc.args[0], (ast.Tuple, ast.List)) else rc.args
+            forced = [str(norm(a_)) for a_ in shp] == ["-1", "2"]
+            pp_ = parent(rc)
+        shape2.append(forced and intd)
+        return isinstance(pp_, ast.Attribute) and pp_.attr == "T"
+    shape2 = []
     for st in flow.stmts:
         if not (isinstance(st, ast.Assign) and isinstance(st.targets[0], ast.Name)):
             continue
@@ -435,6 +448,8 @@ def pair_builders(f, flow):
                         fact="for %s in %s: %s" % (norm(loop.target), norm(loop.iter), norm(loop.body[0])[:100]), node=loop, stmt=uses[0]))
     if not out:
         raise AnalysisError("query(): construction of the pair array not recognised")
+    for b_, s2 in zip(out, shape2):
+        b_["shape2"] = s2
     return out
 
 
@@ -447,6 +462,10 @@ def rule_pairs(ctx):
         ctx.ob("GeoIndex.query.pairs" + ("" if i_ == 0 else "#%d" % (i_ + 1)), b_["ok"] and b_["transposed"], b_["fact"] + ("" if b_["transposed"] else " (not transposed)"),
                "[[build, query] for query, builds in enumerate(jagged) for build in builds].T", node=b_["node"], func=f)
     jags = set(b_["jag"] for b_ in builders)
+    forced_all = [b_.get("shape2") for b_ in builders]
+    ctx.ob("GeoIndex.query.empty_shape", all(forced_all), "every pair array is built as np.array(rows, dtype=int).reshape(-1, 2).T: %s" % forced_all,
+           "an empty result is an integer array of shape (2, 0) like every other result (np.array([]).T is a float array of shape (0,): the documented lat[pairs[0]] raised IndexError)",
+           node=builders[0]["node"], func=f, witness=None if all(forced_all) else {"no pair within r": "pairs.shape == (0,), dtype float64"})
     # distances: hstack over the jagged distances in order
     okd = False
     factd = "no hstack of the jagged distances"
